@@ -253,7 +253,7 @@ def check(ctx):
              'loop iterables in _parse_include: %s' % [P.src(l.iter) for l in loops], detail=[P.src(l.iter) for l in loops])
     PF = gsa.summarise(ctx, 'transformer', 'Transformer.parse', inline_only=())
     pf = PF.func
-    wr = [e for e in PF.effects if (e.kind == 'store' and re.match(r'^self\._tag_ns\[', e.target)) or (e.kind == 'call' and re.match(r'^self\._tag_ns\.(setdefault|update|__setitem__)$', e.target))]
+    wr = [e for e in PF.effects if (e.kind == 'store' and re.match(r'^self\._tag_ns\[', e.target) and e.target.endswith(']')) or (e.kind == 'call' and re.match(r'^self\._tag_ns\.(setdefault|update|__setitem__)$', e.target))]
     bad = [e for e in wr if not (e.target.endswith('.setdefault') or (e.kind == 'store' and gsa.impossible(PF, e, [(r' in self\._tag_ns$', True)])))]
     r4.check(bool(wr) and not bad, 'first struct/union seen for a tag stays in the tag namespace', tm.rel, pf.lineno,
              '_tag_ns[...] can be overwritten (%s): a later typedef of the same tag replaces the primary compound, so the result depends on whether the typedefs or the struct body come first'
